@@ -1571,7 +1571,10 @@ def rule_owner(ctx, classes=SKETCH_CLASSES):
         for which in ("shm", "existing_shm"):
             arm = arms.get(which)
             if arm is None:
-                mentions = any(self_attr(x) == which for x in walk_no_nested(d.node))
+                mentions = any(self_attr(x) == which for x in walk_no_nested(d.node)) or \
+                    any(isinstance(x, ast.Constant) and x.value == which for x in walk_no_nested(d.node)) or \
+                    (any(isinstance(x, ast.Call) and isinstance(x.func, ast.Attribute) and x.func.attr == "close" for x in walk_no_nested(d.node))
+                     and any(isinstance(x, ast.Call) and dotted(x.func) == "getattr" for x in walk_no_nested(d.node)))
                 ctx.ob("owner", d, d.node, "if self.%s:" % which, "__del__ handles the %s case" % which, None if mentions else False,
                        "self.%s is handled in a shape the analysis does not read" % which if mentions else "no such arm")
                 continue
@@ -1860,7 +1863,10 @@ def rule_attach_table(ctx):
         ctx.ob("attach-table", pm, pm.node, "%s -> %r" % (cname, c2t.get(cname)), "parallel_merging tags %s instances %r (inverse of the factory table)" % (cname, tag), okk)
     # attach after construction
     calls = [n for n in walk_no_nested(asm.node) if isinstance(n, ast.Call) and isinstance(n.func, ast.Attribute) and n.func.attr == "attach_existing_shm"]
-    okk = len(calls) == 1 and len(calls[0].args) == 1 and isinstance(calls[0].args[0], ast.Name) and calls[0].args[0].id == asm.params[2]
+    # one call after the dispatch, or one in every arm of the dispatch (as many as there are factory calls)
+    n_fac = len({id(e.node) for e in fcalls})
+    okk = len(calls) in (1, n_fac) and bool(calls) and all(len(c_.args) == 1 and isinstance(c_.args[0], ast.Name) and c_.args[0].id == asm.params[2]
+                                                            and not c_.keywords for c_ in calls)
     ctx.ob("attach-table", asm, calls[0] if calls else asm.node, "local_sketch.attach_existing_shm(shm_name)", "the new sketch is attached to the named block", okk)
     # triples (tag, args, shm.name) built in that order
     pa = ctx.model.func("helpers", "parallel_add")
